@@ -12,6 +12,7 @@ import (
 	"io"
 	"math/rand/v2"
 	"reflect"
+	"runtime"
 	"sync"
 	"sync/atomic"
 	"testing"
@@ -362,6 +363,28 @@ func TestVerif_C02(t *testing.T) {
 			r.Pass(id)
 		}
 	}
+	// session level: a stream that was opened while the session had ONE connection keeps being
+	// reassembled correctly after more connections have joined (its frames then arrive in any order),
+	// and an application that drains the stream with io.Copy into a slow destination sees every
+	// byte intact while further frames arrive
+	for i := 0; i < r.Pick(24, 400); i++ {
+		id := fmt.Sprintf("session-late-connections-%d", i)
+		if !r.Mine(id) {
+			continue
+		}
+		methods := []byte{EncryptionMethodPlain, EncryptionMethodAES256GCM, EncryptionMethodChaha20Poly1305, EncryptionMethodAES128GCM}
+		cfg := rigCfg{Method: methods[i%4], NumConn: 2 + i%4, Seg: "all", Jitter: []int{0, 2, 3}[i%3], Procs: []int{1, 4, 16}[i%3]}
+		r.Case(id, cfg)
+		kind, detail := c02Session(t, r, id, cfg, i%2 == 0)
+		r.Count("evaluations", 1)
+		r.Count("session_level_cases", 1)
+		r.Distinct("cases", vk.Hash64("sess", cfg, i))
+		if kind != "" {
+			r.Violation(id, "C02:"+kind, fmt.Sprintf("%s; cfg %+v", detail, cfg), cfg)
+		} else {
+			r.Pass(id)
+		}
+	}
 	if basesSkipped {
 		r.Count("bases_skipped_field_absent", 1)
 	}
@@ -445,3 +468,122 @@ type sbReader struct{ sb *streamBuffer }
 
 func (r sbReader) Read(p []byte) (int, error) { return r.sb.Read(p) }
 func readerOf(sb *streamBuffer) io.Reader     { return sbReader{sb} }
+
+// slowVerifier is a destination for io.Copy that takes its time: it checks the bytes it is given
+// against the generator, waits (virtual time, so that more frames arrive meanwhile) and checks the
+// very same slice again before returning - a slice handed to Write must not change under it.
+type slowVerifier struct {
+	tag, total int64
+	off        int64
+	errs       []string
+	slow       bool
+}
+
+func (v *slowVerifier) check(p []byte, when string) bool {
+	chk := make([]byte, len(p))
+	rigFill(uint64(v.tag), v.total, v.off, chk)
+	for i := range p {
+		if p[i] != chk[i] {
+			if len(v.errs) < 3 {
+				v.errs = append(v.errs, fmt.Sprintf("byte at stream offset %d is %#x, the writer wrote %#x (%s, chunk of %d bytes handed to the destination)", v.off+int64(i), p[i], chk[i], when, len(p)))
+			}
+			return false
+		}
+	}
+	return true
+}
+
+func (v *slowVerifier) Write(p []byte) (int, error) {
+	if v.off+int64(len(p)) > v.total {
+		v.errs = append(v.errs, fmt.Sprintf("%d bytes beyond the %d written", v.off+int64(len(p))-v.total, v.total))
+		return len(p), nil
+	}
+	if v.check(p, "on arrival") && v.slow {
+		time.Sleep(700 * time.Microsecond)
+		v.check(p, "re-read by the still-consuming destination 0.7 ms later")
+	}
+	v.off += int64(len(p))
+	return len(p), nil
+}
+
+func c02Session(t *testing.T, r *vk.Reporter, id string, cfg rigCfg, copyDrain bool) (kind, detail string) {
+	rng := r.Rand("c02s", id)
+	if cfg.Procs > 0 {
+		defer runtime.GOMAXPROCS(runtime.GOMAXPROCS(cfg.Procs))
+	}
+	p, leftover := vk.InBubble(t, func() {
+		cfg.Inactivity = 100 * time.Hour
+		g := newRigA(cfg, rng)
+		g.addConn() // exactly one connection when the stream is born
+		st, err := g.cli.OpenStream()
+		if err != nil {
+			kind, detail = "harness", err.Error()
+			return
+		}
+		var sizes []int
+		for k := 0; k < 60+rng.IntN(60); k++ {
+			sizes = append(sizes, 1+rng.IntN(4000))
+		}
+		total := sum(sizes)
+		tag := uint64(0xC025E55000000001) &^ downBit
+		first := make([]byte, sizes[0])
+		rigFill(tag, total, 0, first)
+		st.Write(first)
+		acc, err := g.srv.Accept()
+		if err != nil {
+			kind, detail = "harness", err.Error()
+			return
+		}
+		vk.Wait()
+		for i := 1; i < g.nconn(); i++ {
+			g.addConn()
+		}
+		v := &slowVerifier{tag: int64(tag), total: total, slow: copyDrain}
+		rrng := rand.New(rand.NewPCG(rng.Uint64(), 11)) // the reader's own PRNG
+		go func() {
+			if copyDrain {
+				io.Copy(v, acc) // uses the stream's WriterTo if it has one, Read otherwise
+				return
+			}
+			buf := make([]byte, 5000)
+			for {
+				n, err := acc.Read(buf[:1+rrng.IntN(len(buf))])
+				if n > 0 {
+					v.Write(buf[:n])
+				}
+				if err != nil {
+					return
+				}
+			}
+		}()
+		off := int64(sizes[0])
+		for _, sz := range sizes[1:] {
+			b := make([]byte, sz)
+			rigFill(tag, total, off, b)
+			if _, err := st.Write(b); err != nil {
+				kind, detail = "write-failed", err.Error()
+				return
+			}
+			off += int64(sz)
+			if rng.IntN(3) == 0 {
+				time.Sleep(time.Duration(100+rng.IntN(900)) * time.Microsecond)
+			}
+		}
+		vk.Wait()
+		time.Sleep(time.Second)
+		vk.Wait()
+		switch {
+		case len(v.errs) > 0:
+			kind, detail = "wrong-bytes", "stream opened under one connection, "+fmt.Sprint(g.nconn()-1)+" more joined later: "+v.errs[0]
+		case v.off != total:
+			kind, detail = "lost-bytes", fmt.Sprintf("stream opened under one connection, %d more joined later: at quiescence the application has %d of %d bytes; nothing is in flight", g.nconn()-1, v.off, total)
+		}
+		r.Count("session_bytes_checked", v.off)
+		g.closeAll()
+		vk.Wait()
+	})
+	if p != nil && !leftover && kind == "" {
+		kind, detail = "panic", fmt.Sprint(p)
+	}
+	return
+}
